@@ -106,6 +106,9 @@ CHECKS = {
             rapid("cycle", "TestCycles",
                   {"checks": 48, "shards": 12, "timeout": 400},
                   {"checks": 600, "shards": 16, "timeout": 2400}, replay_test="TestReplayCycle", seed_offset=1),
+            rapid("late", "TestLate",
+                  {"checks": 120, "shards": 12, "timeout": 400},
+                  {"checks": 3200, "shards": 16, "timeout": 2400}, replay_test="TestReplayLate", seed_offset=2),
         ],
     },
     "C12": {
@@ -151,6 +154,9 @@ CHECKS = {
             rapid("prop", "TestProp",
                   {"checks": 600, "shards": 12, "timeout": 400},
                   {"checks": 10000, "shards": 16, "timeout": 2400}),
+            rapid("unusable", "TestUnusable",
+                  {"checks": 36, "shards": 12, "timeout": 400},
+                  {"checks": 640, "shards": 16, "timeout": 2400}, replay_test="TestReplayUnusable", seed_offset=1),
         ],
     },
     "C08": {
